@@ -113,11 +113,13 @@ Record cstate := {
   cmapq : option mapping; cmapb : option mapping; (* queueManager / bufferManager reference *)
   cdup : bool;                                    (* the dup'ed descriptor is open *)
   cret : option result;                           (* what newSession returned *)
-  copen : bool; cstall : bool }.                  (* process alive / not frozen *)
+  copen : bool; cstall : bool;                    (* process alive / not frozen *)
+  ctimed : bool }.                                (* initProtocol's timer fired: the socket is shut down, newSession
+                                                     waits for the goroutine before it returns the timeout error *)
 Record sstate := {
   spc : spc_t; sver : Z;
   smapq : option mapping; smapb : option mapping;
-  sdup : bool; sret : option result; sopen : bool; sstall : bool }.
+  sdup : bool; sret : option result; sopen : bool; sstall : bool; stimed : bool }.
 
 Record world := {
   wc : cstate; ws : sstate;
@@ -156,9 +158,9 @@ Definition init (cfg : config) : world :=
               cmapb := if rej then None else Some (bpath cfg, bobj cfg);
               cdup := negb rej;
               cret := if rej then Some (RErr ENotUnix) else None;
-              copen := true; cstall := false |};
+              copen := true; cstall := false; ctimed := false |};
      ws := {| spc := SWaitFirst; sver := c_protoVersion; smapq := None; smapb := None;
-              sdup := true; sret := None; sopen := true; sstall := false |};
+              sdup := true; sret := None; sopen := true; sstall := false; stimed := false |};
      c2s := []; s2c := [];
      fs := match mt cfg with
            | MFile => [(qpath cfg, qobj cfg); (bpath cfg, bobj cfg)]
@@ -223,15 +225,15 @@ Definition cstep (cfg : config) (pc : cpc_t) (ver : Z) (inbox : list frame) (pee
           | Some e => Some (cfail ver rest [FBytes whole] e)
           | None =>
               let chosen := Z.min c_maxSupportProtoVersion (h_ver h) in
-              if chosen =? 2 then   (* V2 initialiser on the client: file-path message, no ack *)
-                Some (cwrite peer_open 2 rest [FBytes whole]
-                        [FBytes (generate 2 c_typeShareMemoryByFilePath (qpath cfg) (bpath cfg))] (CDone ROk))
-              else if chosen =? 3 then
+              if chosen =? c_initializerVersion_2 then   (* V2 initialiser on the client: file-path message, no ack *)
+                Some (cwrite peer_open c_initializerVersion_2 rest [FBytes whole]
+                        [FBytes (generate c_initializerVersion_2 c_typeShareMemoryByFilePath (qpath cfg) (bpath cfg))] (CDone ROk))
+              else if chosen =? c_initializerVersion_3 then
                 match mt cfg with
-                | MFile => Some (cwrite peer_open 3 rest [FBytes whole]
-                                   [FBytes (generate 3 c_typeShareMemoryByFilePath (qpath cfg) (bpath cfg))] CWaitAckShare)
-                | MMemfd => Some (cwrite peer_open 3 rest [FBytes whole]
-                                   [FBytes (generate 3 c_typeShareMemoryByMemfd (qpath cfg) (bpath cfg))] CWaitAckReady)
+                | MFile => Some (cwrite peer_open c_initializerVersion_3 rest [FBytes whole]
+                                   [FBytes (generate c_initializerVersion_3 c_typeShareMemoryByFilePath (qpath cfg) (bpath cfg))] CWaitAckShare)
+                | MMemfd => Some (cwrite peer_open c_initializerVersion_3 rest [FBytes whole]
+                                   [FBytes (generate c_initializerVersion_3 c_typeShareMemoryByMemfd (qpath cfg) (bpath cfg))] CWaitAckReady)
                 end
               else Some (cfail ver rest [FBytes whole] EUnsupportedVersion)
           end
@@ -314,11 +316,11 @@ Definition sstep (f : list mapping) (pc : spc_t) (ver : Z) (inbox : list frame) 
           match check_valid h with
           | Some e => Some (sfail ver None rest [FBytes whole] (RErr e))
           | None =>
-              if h_ver h =? 2 then
+              if h_ver h =? c_initializerVersion_2 then
                 if h_type h =? c_typeShareMemoryByFilePath
-                then handle_file f 2 h whole rest peer_open []
-                else Some (sfail 2 None rest [FBytes whole] (RErr EUnexpectedType))
-              else if h_ver h =? 3 then
+                then handle_file f c_initializerVersion_2 h whole rest peer_open []
+                else Some (sfail c_initializerVersion_2 None rest [FBytes whole] (RErr EUnexpectedType))
+              else if h_ver h =? c_initializerVersion_3 then
                 if h_type h =? c_typeExchangeProtoVersion then
                   let v := Z.min (h_ver h) c_maxSupportProtoVersion in
                   if peer_open
@@ -326,7 +328,7 @@ Definition sstep (f : list mapping) (pc : spc_t) (ver : Z) (inbox : list frame) 
                                so_cons := [FBytes whole];
                                so_write := [hdr8 c_maxSupportProtoVersion c_typeExchangeProtoVersion] |}
                   else Some (sfail v None rest [FBytes whole] (RErr EPipe))
-                else Some (sfail 3 None rest [FBytes whole] (RErr EUnexpectedType))
+                else Some (sfail c_initializerVersion_3 None rest [FBytes whole] (RErr EUnexpectedType))
               else Some (sfail ver None rest [FBytes whole] (RErr EUnsupportedVersion))
           end
       end
@@ -363,6 +365,7 @@ Definition sstep (f : list mapping) (pc : spc_t) (ver : Z) (inbox : list frame) 
       | [] => if peer_open then None else Some (sfail ver None inbox [] (RErr ENoOob))
       | FBytes b :: rest => Some (sfail ver None rest [FBytes b] (RErr ENoOob))
       | FFds fds :: rest =>
+          if zlen fds <? c_memfdCount then Some (sfail ver None rest [FFds fds] (RErr EFdCount)) else
           match fds with
           | bo :: qo :: _ =>    (* bufferFd, queueFd := fds[0], fds[1] *)
               if peer_open
@@ -378,15 +381,17 @@ Definition sstep (f : list mapping) (pc : spc_t) (ver : Z) (inbox : list frame) 
 (* ---- the whole system ---- *)
 Inductive label :=
   | LC | LS                 (* the initialiser goroutine of the client / server takes its next step *)
-  | LRetC | LRetS           (* initProtocol's select receives the goroutine's result *)
-  | LTimerC | LTimerS       (* initProtocol's select receives the InitializeTimeout timer *)
+  | LRetC | LRetS           (* initProtocol receives the goroutine's result, or — after the timer — sees it finished *)
+  | LTimerC | LTimerS       (* initProtocol's select receives the InitializeTimeout timer: shutdown(connFd), wait *)
   | LStallC | LStallS       (* the adversary freezes the process: it never answers again *)
   | LDieC | LDieS           (* the adversary kills the process: its sockets close *)
   | LRmQ | LRmB.            (* the queue / buffer file disappears from /dev/shm *)
 
 (* newSession's error path: queueManager.unmap(), addGlobalBufferManagerRefCount(path, -1) — the
-   last reference unmaps and, for file mappings, removes the file.  The dup'ed descriptor is not
-   closed and the goroutine is not cancelled. *)
+   last reference unmaps and, for file mappings, removes the file — and fd.Close() on the dup'ed
+   descriptor.  It runs only after the initialiser goroutine has finished: on a timeout initProtocol
+   shuts the socket down (which wakes a goroutine blocked in a raw read; its later IO fails) and
+   waits for the goroutine before it returns the timeout error. *)
 Definition unlink (m : option mapping) (f : list mapping) : list mapping :=
   match m with Some (p, _) => remove_path p f | None => f end.
 
@@ -404,9 +409,9 @@ Definition c_return (w : world) (r : result) : world :=
   let c := wc w in
   match r with
   | ROk => set_c w {| cpc := cpc c; cver := cver c; cmapq := cmapq c; cmapb := cmapb c; cdup := cdup c;
-                      cret := Some ROk; copen := copen c; cstall := cstall c |}
-  | _ => {| wc := {| cpc := cpc c; cver := cver c; cmapq := None; cmapb := None; cdup := cdup c;
-                     cret := Some r; copen := copen c; cstall := cstall c |};
+                      cret := Some ROk; copen := copen c; cstall := cstall c; ctimed := ctimed c |}
+  | _ => {| wc := {| cpc := cpc c; cver := cver c; cmapq := None; cmapb := None; cdup := false;
+                     cret := Some r; copen := copen c; cstall := cstall c; ctimed := ctimed c |};
             ws := ws w; c2s := c2s w; s2c := s2c w;
             fs := unlink (cmapb c) (unlink (cmapq c) (fs w));
             c_out := c_out w; c_cons := c_cons w; s_out := s_out w; s_cons := s_cons w |}
@@ -415,16 +420,16 @@ Definition s_return (w : world) (r : result) : world :=
   let s := ws w in
   match r with
   | ROk => set_s w {| spc := spc s; sver := sver s; smapq := smapq s; smapb := smapb s; sdup := sdup s;
-                      sret := Some ROk; sopen := sopen s; sstall := sstall s |}
+                      sret := Some ROk; sopen := sopen s; sstall := sstall s; stimed := stimed s |}
   | RErr _ => {| wc := wc w;
-                 ws := {| spc := spc s; sver := sver s; smapq := None; smapb := None; sdup := sdup s;
-                          sret := Some r; sopen := sopen s; sstall := sstall s |};
+                 ws := {| spc := spc s; sver := sver s; smapq := None; smapb := None; sdup := false;
+                          sret := Some r; sopen := sopen s; sstall := sstall s; stimed := stimed s |};
                  c2s := c2s w; s2c := s2c w;
                  fs := unlink (smapb s) (unlink (smapq s) (fs w));
                  c_out := c_out w; c_cons := c_cons w; s_out := s_out w; s_cons := s_cons w |}
   | RPanic _ =>  (* an unrecovered panic in the goroutine takes the whole process down *)
       set_s w {| spc := spc s; sver := sver s; smapq := None; smapb := None; sdup := false;
-                 sret := Some r; sopen := false; sstall := sstall s |}
+                 sret := Some r; sopen := false; sstall := sstall s; stimed := stimed s |}
   end.
 
 Definition step (cfg : config) (w : world) (l : label) : world :=
@@ -432,11 +437,11 @@ Definition step (cfg : config) (w : world) (l : label) : world :=
   match l with
   | LC =>
       if c_running c then
-        match cstep cfg (cpc c) (cver c) (s2c w) (sopen s) with
+        match cstep cfg (cpc c) (cver c) (s2c w) (sopen s && negb (ctimed c)) with
         | None => w
         | Some o =>
             {| wc := {| cpc := co_pc o; cver := co_ver o; cmapq := cmapq c; cmapb := cmapb c; cdup := cdup c;
-                        cret := cret c; copen := copen c; cstall := cstall c |};
+                        cret := cret c; copen := copen c; cstall := cstall c; ctimed := ctimed c |};
                ws := s; c2s := c2s w ++ co_write o; s2c := co_inbox o; fs := fs w;
                c_out := c_out w ++ co_write o; c_cons := c_cons w ++ co_cons o;
                s_out := s_out w; s_cons := s_cons w |}
@@ -444,12 +449,12 @@ Definition step (cfg : config) (w : world) (l : label) : world :=
       else w
   | LS =>
       if s_running s then
-        match sstep (fs w) (spc s) (sver s) (c2s w) (copen c) with
+        match sstep (fs w) (spc s) (sver s) (c2s w) (copen c && negb (stimed s)) with
         | None => w
         | Some o =>
             {| wc := c;
                ws := {| spc := so_pc o; sver := so_ver o; smapq := so_mapq o; smapb := so_mapb o; sdup := sdup s;
-                        sret := sret s; sopen := sopen s; sstall := sstall s |};
+                        sret := sret s; sopen := sopen s; sstall := sstall s; stimed := stimed s |};
                c2s := so_inbox o; s2c := s2c w ++ so_write o; fs := fs w;
                c_out := c_out w; c_cons := c_cons w;
                s_out := s_out w ++ so_write o; s_cons := s_cons w ++ so_cons o |}
@@ -458,29 +463,50 @@ Definition step (cfg : config) (w : world) (l : label) : world :=
   | LRetC =>
       if c_running c then
         match cpc c, cret c with
-        | CDone r, None => c_return w r
+        | CDone r, None => c_return w (if ctimed c then RErr ETimeout else r)
         | _, _ => w
         end
       else w
   | LRetS =>
       if s_running s then
         match spc s, sret s with
-        | SDone r, None => s_return w r
+        | SDone r, None => s_return w (if stimed s then match r with RPanic _ => r | _ => RErr ETimeout end else r)
         | _, _ => w
         end
       else w
   | LTimerC =>
-      if c_running c then match cret c with None => c_return w (RErr ETimeout) | Some _ => w end else w
+      if c_running c then
+        match cret c with
+        | Some _ => w
+        | None =>
+            match cpc c with
+            | CDone _ => c_return w (RErr ETimeout)     (* the select took the timer although the result was ready *)
+            | _ => set_c w {| cpc := cpc c; cver := cver c; cmapq := cmapq c; cmapb := cmapb c; cdup := cdup c;
+                              cret := cret c; copen := copen c; cstall := cstall c; ctimed := true |}
+            end
+        end
+      else w
   | LTimerS =>
-      if s_running s then match sret s with None => s_return w (RErr ETimeout) | Some _ => w end else w
+      if s_running s then
+        match sret s with
+        | Some _ => w
+        | None =>
+            match spc s with
+            | SDone (RPanic y) => s_return w (RPanic y)
+            | SDone _ => s_return w (RErr ETimeout)
+            | _ => set_s w {| spc := spc s; sver := sver s; smapq := smapq s; smapb := smapb s; sdup := sdup s;
+                              sret := sret s; sopen := sopen s; sstall := sstall s; stimed := true |}
+            end
+        end
+      else w
   | LStallC => set_c w {| cpc := cpc c; cver := cver c; cmapq := cmapq c; cmapb := cmapb c; cdup := cdup c;
-                          cret := cret c; copen := copen c; cstall := true |}
+                          cret := cret c; copen := copen c; cstall := true; ctimed := ctimed c |}
   | LStallS => set_s w {| spc := spc s; sver := sver s; smapq := smapq s; smapb := smapb s; sdup := sdup s;
-                          sret := sret s; sopen := sopen s; sstall := true |}
+                          sret := sret s; sopen := sopen s; sstall := true; stimed := stimed s |}
   | LDieC => set_c w {| cpc := cpc c; cver := cver c; cmapq := None; cmapb := None; cdup := false;
-                        cret := cret c; copen := false; cstall := cstall c |}
+                        cret := cret c; copen := false; cstall := cstall c; ctimed := ctimed c |}
   | LDieS => set_s w {| spc := spc s; sver := sver s; smapq := None; smapb := None; sdup := false;
-                        sret := sret s; sopen := false; sstall := sstall s |}
+                        sret := sret s; sopen := false; sstall := sstall s; stimed := stimed s |}
   | LRmQ => {| wc := c; ws := s; c2s := c2s w; s2c := s2c w; fs := remove_path (qpath cfg) (fs w);
                c_out := c_out w; c_cons := c_cons w; s_out := s_out w; s_cons := s_cons w |}
   | LRmB => {| wc := c; ws := s; c2s := c2s w; s2c := s2c w; fs := remove_path (bpath cfg) (fs w);
@@ -499,14 +525,14 @@ Definition cscript (cfg : config) : list frame :=
   match mt cfg with
   | MFile => [FBytes (generate c_protoVersion c_typeShareMemoryByFilePath (qpath cfg) (bpath cfg))]
   | MMemfd => [hdr8 c_maxSupportProtoVersion c_typeExchangeProtoVersion;
-               FBytes (generate 3 c_typeShareMemoryByMemfd (qpath cfg) (bpath cfg));
+               FBytes (generate c_initializerVersion_3 c_typeShareMemoryByMemfd (qpath cfg) (bpath cfg));
                FFds [bobj cfg; qobj cfg]]
   end.
 Definition sscript (cfg : config) : list frame :=
   match mt cfg with
   | MFile => []
   | MMemfd => [hdr8 c_maxSupportProtoVersion c_typeExchangeProtoVersion;
-               hdr8 3 c_typeAckReadyRecvFD; hdr8 3 c_typeAckShareMemory]
+               hdr8 c_initializerVersion_3 c_typeAckReadyRecvFD; hdr8 c_initializerVersion_3 c_typeAckShareMemory]
   end.
 
 (* a fair fault-free schedule long enough for either flow *)
